@@ -703,16 +703,34 @@ def rule_region_kind(prog, C, rule, modules=("ffuncs", "xfuncs"), classes=None):
                                 if d in FLOATS:
                                     continue
                                 if a.op == "attr" and a.args[1] == "dtype":
-                                    if wv and not tm.contains(a.args[0], lambda x: (x.op == "param" and x.args[0] == "weights") or (x.op == "attr" and x.args[1] == "weights")):
-                                        bad.append("the dtype of an array that does not involve the weights")
-                                    continue  # the summed array's own dtype
+                                    # the dtype of a constructor array: wide when that array carries the FACT values (float64 / int64 by the
+                                    # properties' quantifier, and promotion never narrows); an array built from the weights and validity
+                                    # alone has the WEIGHTS' dtype, which may be uint8 or bool
+                                    row = None
+                                    for fname, ft in m.fields.items():
+                                        if ft == a.args[0] and fname in m.rows:
+                                            row = m.rows[fname]
+                                    if row is None:
+                                        try:
+                                            row = m.alg.simplify_row(m.alg.row(a.args[0]))
+                                        except Exception:
+                                            row = None
+                                    if row is None or (isinstance(row, tuple) and row and row[0] == "UNKNOWN"):
+                                        unk.append(tm.show(a)[:40])
+                                    elif _mentions(row, lambda x: x == ("VALS", "arr")):
+                                        pass  # the summed array's own dtype
+                                    elif wv:
+                                        bad.append("the dtype of %s, an array made of the weights and validity only: it has the weights' own dtype (uint8 / bool weights wrap at 255 / 1)" % tm.show(a.args[0])[:30])
+                                    else:
+                                        bad.append("the dtype of %s, which does not carry the fact values" % tm.show(a.args[0])[:30])
+                                    continue
                                 if d in INTS:
                                     bad.append(d)
                                 else:
                                     unk.append(tm.show(a)[:40])
                             if bad:
-                                C.add(rule, VIOLATED, where, cons, "region allocated as %s while its cells receive %s: the fractional part is cut off on the store" % (bad[0], "weight values" if wv else "fact values"),
-                                      {"inputs": "weights [0.5, 0.5]: the cell holds 0 instead of 1.0" if wv else "facts [0.5, 0.25]: the cell holds 0"})
+                                C.add(rule, VIOLATED, where, cons, "region allocated as %s while its cells receive %s: the value is cut off / wraps on the store" % (bad[0], "weight values" if wv else "fact values"),
+                                      {"inputs": ("uint8 weights whose valid sum in one cell is 256: the cell's weighted valid count is 0 and the cell is reported missing" if "dtype of" in bad[0] else "weights [0.5, 0.5]: the cell holds 0 instead of 1.0") if wv else "facts [0.5, 0.25]: the cell holds 0"})
                             elif unk:
                                 C.add(rule, UNDECIDED, where, cons, "dtype %s not recognised" % unk[0])
                             else:
